@@ -17,7 +17,7 @@ claimed = {
    note=TB+"strings.TrimSpace/Index/LastIndex/IndexFunc, strconv.ParseInt, unicode.IsSpace/IsDigit, fmt.Sprintf(%d,%s) contracts are assumed (stdlib/strings.spec). Round trip: bounded only.",
    technique=DED+"; bounded exhaustive stand-in for the round-trip composition", design="3 (C03)"),
  "C04": dict(
-   text="Deductive proof, for all inputs, of every function of the dependency parser (17 functions, 16 loops): cursor discipline, no panic, termination, frames, and the rejection facts of the statement as postconditions (success only in front of ',', '|' or the end - so two names without separator are rejected; a version clause only closed by ')', an arch list by ']', a profile group by '>', a substvar by '}' followed by a separator; only the five operators; Parse returns a value xor an error). That parsing a rendered AST gives back the AST is checked by the bounded stand-in (14.6 M renderings and corruptions), labelled bounded.",
+   text="Deductive proof, for all inputs, of every function of the dependency parser (17 functions, 16 loops): cursor discipline, no panic, termination, frames, and the rejection facts of the statement as postconditions (success only in front of ',', '|' or the end - so two names without separator are rejected; a version clause only closed by ')', an arch list by ']', a profile group by '>', a substvar by '}' followed by a separator; only the five operators; Parse returns a value xor an error; UnmarshalControl leaves its receiver alone when the field is rejected). That parsing a rendered AST gives back the AST is checked by the bounded stand-in (14.6 M renderings and corruptions), labelled bounded.",
    note=TB+"The positive half (parse(render(AST)) = AST) is bounded, not proved.",
    technique=DED+"; bounded exhaustive stand-in for the grammar composition", design="3 (C04)"),
  "C06": dict(
@@ -30,11 +30,11 @@ claimed = {
    technique=DED+"; bounded exhaustive stand-in for the remaining entry points", design="3 (C18)"),
 
  "C05": dict(
-   text="Deductive proof for architecture names, all inputs: parseArchInto/ParseArch/Arch.UnmarshalControl equal a parse spec written from the statement (two-part names leave the ABI open, lone any/all is all three parts, other lone names are gnu-linux-<name>), also when decoding into a used value; Arch.String is proved to be the inverse of that spec for every triple with non-empty parts whose ABI and OS contain no dash (inductive lemmas about the position of the dashes in the rendered name), so a wildcard is neither widened nor narrowed; an appended profile list has at least one profile. That render-then-parse is a fixpoint for whole dependency fields is checked by the bounded stand-in (token sequences up to length 5/6 over a 16-token alphabet), labelled bounded.",
+   text="Deductive proof for architecture names, all inputs: parseArchInto/ParseArch/Arch.UnmarshalControl equal a parse spec written from the statement (two-part names leave the ABI open, lone any/all is all three parts, other lone names are gnu-linux-<name>), also when decoding into a used value; names with an empty component are refused (exactly those); Arch.String is proved to be the inverse of that spec for every triple with non-empty parts whose ABI and OS contain no dash (inductive lemmas about the position of the dashes in the rendered name), so a wildcard is neither widened nor narrowed; an appended profile list has at least one profile; version constraints and stages are rendered in full. That render-then-parse is a fixpoint for whole dependency fields is checked by the bounded stand-in (token sequences up to length 5/6 over a 16-token alphabet), labelled bounded.",
    note=TB+"strings.SplitN/Contains contracts assumed. Whole-field fixpoint: bounded only.",
    technique=DED+"; bounded exhaustive stand-in for the whole-field fixpoint", design="3 (C05), 6"),
  "C07": dict(
-   text="Deductive proof, for arbitrary input bytes, of the representation invariant of every paragraph ParagraphReader.Next returns and All collects (each listed name has a value, each valued name is listed, no name twice - carried as a loop invariant with a position function over the heap), of termination and of a-value-xor-an-error; Paragraph.Set/Update preserve it. Conformance of the values to the deb822 document model (logical lines, comments, CRLF, final newline) and the agreement of Next/All/Unmarshal are checked by the bounded stand-in (6.4 M model documents), labelled bounded.",
+   text="Deductive proof, for arbitrary input bytes, of the representation invariant of every paragraph ParagraphReader.Next returns and All collects (each listed name has a value, each valued name is listed, no name twice - carried as a loop invariant with a position function over the heap), of termination and of a-value-xor-an-error; io.EOF is returned only when nothing but empty lines and comments was left (a last paragraph, terminated or not, is never dropped); Paragraph.Set/Update preserve the invariant. Conformance of the values to the deb822 document model (logical lines, comments, CRLF, final newline) and the agreement of Next/All/Unmarshal are checked by the bounded stand-in (6.4 M model documents), labelled bounded.",
    note=TB+"bufio.Reader.ReadString is modelled over a ghost 'remaining input' string (trusted). Model conformance: bounded only.",
    technique=DED+"; bounded exhaustive stand-in for model conformance", design="3 (C07), 6"),
  "C09": dict(
@@ -66,7 +66,7 @@ claimed = {
    note=TB+"openpgp.CheckDetachedSignature, io.MultiReader/NewSectionReader over ghost content assumed.",
    technique=DED+" with trusted contracts on the OpenPGP library", design="3 (C16), 6"),
  "C17": dict(
-   text="Deductive proof, for arbitrary input: ParseOne returns io.EOF only at a clean end (input exhausted and everything consumed since the previous entry blank), so input ending inside an entry yields another error; a value xor an error; progress and termination of ParseOne and Parse; partition splits at the FIRST delimiter and keeps the rest verbatim. Field-by-field conformance to the dpkg changelog model is checked by the bounded stand-in (2.8 M renderings and truncations), labelled bounded.",
+   text="Deductive proof, for arbitrary input: ParseOne returns io.EOF only at a clean end (input exhausted and everything consumed since the previous entry blank), so input ending inside an entry yields another error; a value xor an error; progress and termination of ParseOne and Parse; partition splits at the FIRST delimiter and keeps the rest verbatim; the change text of an entry is one contiguous piece of the input, byte for byte. Field-by-field conformance to the dpkg changelog model is checked by the bounded stand-in (2.8 M renderings and truncations), labelled bounded.",
    note=TB+"bufio ReadString over ghost input, time.Parse, strings.SplitN assumed. Model conformance: bounded only.",
    technique=DED+"; bounded exhaustive stand-in for model conformance", design="3 (C17), 6"),
  "C20": dict(
